@@ -5,8 +5,8 @@ import warnings
 
 from .common import Oracle, Suite, errname, merge
 
-GEN_UNITS = ["Handlers", "PyUnicode", "UsingSettings"]
-LEAN_TARGETS = ["PasslibVerif.Props.C09"]
+GEN_UNITS = ["Handlers", "PyUnicode", "UsingSettings", "UsingBool", "Rng", "PyCase"]
+LEAN_TARGETS = ["PasslibVerif.Props.C09", "PasslibVerif.Props.C09Salt"]
 ASSUMPTIONS = [
     "float vary_rounds: the integer `int(default_rounds * vary_rounds)` is taken from the running interpreter (atom); log2-cost hashers with float vary are compared on the real code only",
     "type()-based subclass creation and attribute lookup follow CPython's MRO semantics (modelled as a class table)",
@@ -15,6 +15,12 @@ EXPLANATION = (
     "Theorems about Model.Rounds.usingRounds (statement-order model of HasRounds.using): results stay inside the hard limits, strict mode "
     "refuses out-of-range values, relaxed mode clamps, a window given in one call is ordered and contains the default, generated rounds stay "
     "in a well-ordered window and are never self-flagged, update check = outside window; class-table frame theorem for isolation. "
+    "Props.C09Salt (Model.UsingSalt: HasSalt.using / _clip_to_valid_salt_size / _norm_salt / HasManyIdents.using / _norm_ident / TruncateMixin.using / as_bool, "
+    "for every class description, argument and random draw): an accepted salt size lies inside the hard limits, strict mode refuses and relaxed mode clamps to the "
+    "nearest limit, an in-range size is taken exactly, the generated salt has exactly the configured size over the class alphabet and passes the hasher's own "
+    "_norm_salt (the assert of HasSalt.__init__ cannot trip), a fixed salt is carried by every later hash, the two spellings agree and exclude each other, an "
+    "accepted ident is one of ident_values, truncate_error: booleans / recognised words taken, 'not set' keeps the parent's policy, unknown words are value errors "
+    "(word sets read from the source each run, disjoint and normalised). "
     "Correspondence: real hashers x chains of using() x values inside/at/beyond limits x relaxed x str/int, attribute snapshots of every "
     "pre-existing class."
 )
@@ -176,7 +182,12 @@ def correspond(ctx):
         s_int.add(f"rounds int {','.join(str(ord(c)) for c in s) or '-'}", lambda s=s: str(int(s)), "int()")
     o_set = Oracle(ctx, "settings-honoured")
     settings_oracle(ctx, o_set)
-    return merge(s_r, s_iso, s_int, o_set)
+    # salt size / fixed salt / ident / truncation policy: Model.UsingSalt vs synthetic and registered classes
+    from . import c09_salt
+
+    s_salt = Suite(ctx, "using-salt-ident-truncate-model")
+    c09_salt.model_suite(ctx, s_salt)
+    return merge(s_r, s_iso, s_int, o_set, s_salt)
 
 
 def settings_oracle(ctx, o, first_only=False):
